@@ -1208,3 +1208,18 @@ package zygo
 //@ requires typeinv[Stack] wfs(env.linearstack)
 //@ C02 ensures pops-and-jumps: r0 == nil && old(s.scopesToPop) >= 0 ==> env.linearstack.tos == old(env.linearstack.tos) - old(s.scopesToPop) && env.pc == s.pos + s.loop.continueOffset
 //@ C02 loop 0 invariant 0 <= i && (i <= s.scopesToPop || s.scopesToPop < 0) && s.scopesToPop == old(s.scopesToPop) && wfs(env.linearstack) && env.linearstack == old(env.linearstack) && env.linearstack.tos == old(env.linearstack.tos) - i
+
+// C20: the sorted map walk orders entries by the key itself. Keys of one map are distinct,
+// so this is a strict total order and the walk is a function of the map's contents; an
+// order that lets two distinct keys tie hands the tie to sort.Sort and Go's map order.
+//@ func (KiSlice).Less
+//@ C20 pure
+//@ C20 ensures orders-by-key-itself: r0 == (a[i].key < a[j].key)
+//@ func (KiSlice).Swap
+//@ C20 ensures exchanges: a[i] == old(a[j]) && a[j] == old(a[i]) && len(a) == old(len(a))
+//@ func (KiSlice).Len
+//@ C20 pure
+//@ C20 ensures r0 == len(a)
+//@ func (SymtabSorter).Less
+//@ C20 pure
+//@ C20 ensures orders-by-key-itself: r0 == (a[i].Key < a[j].Key)
